@@ -969,10 +969,11 @@ func Div(y tensor.Tensor, a tensor.Tensor, b tensor.Tensor) (gctx *GradContext) 
 				gradFn: func() (o tensor.Tensor, err error) {
 					gy := y.Gradient()
 
-					n := a.Scale(-1)
-					d := b.Pow(2)
+					// -a/b^2 computed as -(a/b)/b: squaring b overflows (or
+					// underflows to a division by zero) for |b| beyond 1e154 (1e-154)
+					n := y.Scale(-1)
 
-					gb, err := n.Div(d)
+					gb, err := n.Div(b)
 					if err != nil {
 						return
 					}
